@@ -220,3 +220,18 @@ Section Semantics.
     Qed.
   End Language.
 End Semantics.
+
+(* numberings of names exist *)
+Lemma unnum_fuel_num s : forall fuel, num_of s <= fuel -> unnum_fuel fuel (num_of s) = s.
+Proof.
+  induction s as [|c r IH]; intros fuel H.
+  - destruct fuel; reflexivity.
+  - cbn [num_of] in *. destruct fuel as [|f]; [lia|]. cbn [unnum_fuel].
+    pose proof (Ascii.nat_ascii_bounded c) as Hb.
+    rewrite Nat.mod_add by lia. rewrite Nat.mod_small by lia.
+    rewrite Nat.div_add by lia. rewrite Nat.div_small by lia. simpl plus.
+    rewrite Ascii.ascii_nat_embedding. f_equal. apply IH. lia.
+Qed.
+
+Theorem numbering_exists : forall s, unnum_of (num_of s) = s.
+Proof. intros s. apply unnum_fuel_num. lia. Qed.
